@@ -1,5 +1,6 @@
 """C13 - Mermaid export declares exactly the admitted nodes and only edges between them."""
 import collections
+import math
 import os
 import re
 import tempfile
@@ -12,7 +13,7 @@ from anytree.exporter import MermaidExporter
 from .. import forest, refs, shapes, strategies
 from ..core import Violation
 from . import c06
-from .c12 import check_gc, check_locale, NAME, NODE_CLASSES, TOKEN, decode_name, exotic_names, aborted_iterations, esc, expected_structure, special_names, tripwired
+from .c12 import check_gc, check_locale, NAME, NODE_CLASSES, TOKEN, decode_name, exotic_names, aborted_iterations, esc, expected_structure, fractional, special_names, tripwired
 
 PROP_ID = "C13"
 LEVEL = "exploration"
@@ -93,7 +94,24 @@ def _once(case, acc, tree, labels):
     header = "%s %s" % (case.get("graph", "graph"), case.get("name", "TD"))
     options = case.get("options") or []
 
+    level = [maxlevel]
+
     def verify(lines, known_ident, phase):
+        """A maxlevel that is not a whole number has no prescribed reading (the statement says 'depth below maxlevel', the
+        iterators count levels from 1 and stop above it): the output must be right for ONE reading - node lines and edge
+        lines have to agree on it - and that is all that is asked."""
+        if not fractional(maxlevel):
+            return verify_at(lines, known_ident, phase)
+        first = None
+        for reading in (math.floor(maxlevel), math.ceil(maxlevel)):
+            level[0] = reading
+            try:
+                return verify_at(lines, known_ident, phase)
+            except Violation as exc:
+                first = first or exc
+        raise Violation(first.clause, "maxlevel=%r read as %d and as %d: %s" % (maxlevel, math.floor(maxlevel), math.ceil(maxlevel), first.detail))
+
+    def verify_at(lines, known_ident, phase):
         """Complete oracle for one iteration of the exporter against the CURRENT tree and admission sets."""
         where = "%s [%s]" % (ctx, phase)
         if not lines or lines[0] != header:
@@ -102,7 +120,7 @@ def _once(case, acc, tree, labels):
         if body[: len(options)] != [indent + o for o in options]:
             raise Violation("options", "%s: option lines %r" % (where, body[: len(options)]))
         body = body[len(options):]
-        declared, edges, _ = expected_structure(tree, start, stop_ids, hide_ids, maxlevel)
+        declared, edges, _ = expected_structure(tree, start, stop_ids, hide_ids, level[0])
         if len(body) < len(declared):
             raise Violation("node-lines", "%s: %d lines for %d declared nodes: %r" % (where, len(body), len(declared), body))
         ident = {}
@@ -195,6 +213,7 @@ def _once(case, acc, tree, labels):
     acc.nontrivial(bool(edges) and (r_stop + r_level + r_filter >= 2))
     acc.tag("cases_with_edges", bool(edges))
     acc.tag("maxlevel_0", maxlevel == 0)
+    acc.tag("maxlevel_not_a_whole_number", fractional(maxlevel))
     acc.tag("custom_functions", bool(spec))
 
 
@@ -219,6 +238,23 @@ def _enum_cases(max_nodes, index, count):
                 for hide in shapes.subsets(sub):
                     for maxlevel in [None] + list(range(0, height + 3)):
                         yield {"shape": forest.to_list(shape), "names": names, "start": start, "stop": stop, "hide": hide, "maxlevel": maxlevel, "truth": k, "positional": k % 4 == 0, "indent": k % 3, "cls": ("Node", "EqNode", "Node", "FalsyNode", "LenNode")[k % 5]}
+
+
+def _fraction_cases(max_nodes):
+    """maxlevel = 0.5, 1.5, 2.5 ...: on every small shape and start node, alone and with one stopped or hidden node."""
+    from .c06 import _subtree_labels
+
+    k = 0
+    for shape in shapes.trees_upto(max_nodes):
+        size = shapes.shape_size(shape)
+        for start in range(size):
+            sub = _subtree_labels(shape, start)
+            if len(sub) < 2:
+                continue
+            for half in range(0, 4):
+                for stop, hide in [([], [])] + [([x], []) for x in sub[1:]] + [([], [x]) for x in sub]:
+                    k += 1
+                    yield {"shape": forest.to_list(shape), "names": special_names(size, k), "start": start, "stop": stop, "hide": hide, "maxlevel": half + 0.5, "truth": k, "positional": k % 4 == 0, "indent": k % 3, "cls": "Node"}
 
 
 @st.composite
@@ -277,7 +313,7 @@ def plan(tier, seed):
     examples = 150 if tier == "quick" else 1200
     tasks = [{"engine": "enum", "max_nodes": max_nodes, "index": i, "count": nshards * 2} for i in range(nshards * 2)]
     tasks += [{"engine": "hyp", "examples": examples, "seed": seed * 1000 + i} for i in range(nshards)]
-    tasks += [{"engine": "locale"}, {"engine": "gc"}]
+    tasks += [{"engine": "locale"}, {"engine": "gc"}, {"engine": "fraction", "max_nodes": 4 if tier == "quick" else 5}]
     tasks += [{"engine": "wide", "widths": [w]} for w in ((300, 700) if tier == "quick" else (257, 300, 700, 1100, 2500))]
     return tasks
 
@@ -304,7 +340,9 @@ def run_task(task, acc):
                 acc.add_violation(case, exc)
                 break
         return
-    if task["engine"] == "enum":
+    if task["engine"] == "fraction":
+        acc.run_enum(check_case, _fraction_cases(task["max_nodes"]))
+    elif task["engine"] == "enum":
         acc.run_enum(check_case, _enum_cases(task["max_nodes"], task["index"], task["count"]))
     else:
         acc.run_hypothesis(check_case, random_cases(), task["examples"], task["seed"])
